@@ -241,9 +241,19 @@ def gen_parts(rng, S, nparts, counter):
     return parts
 
 
-def render_wsdl(S, ops, R=None):
+def invoke(client, cname):
+    """cname: 'op' (default port) or 'port2/op' (the same operation through the second port)."""
+    if "/" in cname:
+        port, op = cname.split("/", 1)
+        return getattr(client.service[port], op)()
+    return getattr(client.service, cname)()
+
+
+def render_wsdl(S, ops, R=None, ops2=None):
     """ops: [(name, [Part])]; every operation has an empty input message and
-    one soap:header per declared part, in order."""
+    one soap:header per declared part, in order.  ops2: optional {name: [Part]} — the
+    same port type is then also exposed through a second binding `b2` / port `port2`
+    that declares those header parts (taken from the same header message) instead."""
     R = R or F.Renderer(S)
     p0 = R.prefixes[0]
     globals_ = dict((i, []) for i in range(len(S.namespaces)))
@@ -264,6 +274,19 @@ def render_wsdl(S, ops, R=None):
                        for p in parts)
         bops.append('    <wsdl:operation name="%s"><soap:operation soapAction="act_%s" style="document"/>'
                     '<wsdl:input><soap:body use="literal"/>%s</wsdl:input></wsdl:operation>' % (name, name, hdrs))
+    second_binding = second_port = ""
+    if ops2 is not None:
+        bops2 = []
+        for name, _ in ops:
+            hdrs = "".join('<soap:header message="%s:%sHdr" part="%s" use="literal"/>' % (p0, name, p.partname)
+                           for p in ops2[name])
+            bops2.append('    <wsdl:operation name="%s"><soap:operation soapAction="act2_%s" style="document"/>'
+                         '<wsdl:input><soap:body use="literal"/>%s</wsdl:input></wsdl:operation>' % (name, name, hdrs))
+        second_binding = ('  <wsdl:binding name="b2" type="%s:pt">\n'
+                          '    <soap:binding style="document" transport="http://schemas.xmlsoap.org/soap/http"/>\n%s\n'
+                          '  </wsdl:binding>\n' % (p0, "\n".join(bops2)))
+        second_port = ('\n    <wsdl:port name="port2" binding="%s:b2"><soap:address '
+                       'location="http://unused.invalid/svc2"/></wsdl:port>' % p0)
     blocks = [R.schema_block(i, "\n".join(globals_[i])) for i in range(len(S.namespaces))]
     return ("""<?xml version='1.0' encoding='UTF-8'?>
 <wsdl:definitions targetNamespace="%s" %s
@@ -281,12 +304,12 @@ def render_wsdl(S, ops, R=None):
     <soap:binding style="document" transport="http://schemas.xmlsoap.org/soap/http"/>
 %s
   </wsdl:binding>
-  <wsdl:service name="svc">
-    <wsdl:port name="port" binding="%s:b"><soap:address location="http://unused.invalid/svc"/></wsdl:port>
+%s  <wsdl:service name="svc">
+    <wsdl:port name="port" binding="%s:b"><soap:address location="http://unused.invalid/svc"/></wsdl:port>%s
   </wsdl:service>
 </wsdl:definitions>
 """ % (S.namespaces[0][0], R.nsdecls(), "\n".join(blocks), "\n".join(msgs), "\n".join(pops), p0,
-       "\n".join(bops), p0)).encode("utf-8")
+       "\n".join(bops), second_binding, p0, second_port)).encode("utf-8")
 
 
 def gen_part_value(rng, S, part):
@@ -638,7 +661,7 @@ class Runner(object):
             stamps = []
             raw = None
             try:
-                ctx = getattr(client.service, cname)()
+                ctx = invoke(client, cname)
                 raw = ctx.envelope
                 env = U.expat_parse(raw)
                 hdr = env.find("Header", F.SOAPENV)
@@ -683,7 +706,7 @@ class Runner(object):
                         py_findings.append(("C17:generated-nonce-shape", "generated nonce %r is not base64 text" % (t.nonce,)))
         # ---- one Coq case per operation called
         for cname, results in per_op.items():
-            if cname != calls[0]:
+            if cname.split("/")[-1] != calls[0].split("/")[-1]:
                 # the values were generated for the first operation's parts: calls of another
                 # operation in between only serve the "same again afterwards" part of the property
                 ck.count("interleaved-other-operation-calls", len(results))
@@ -894,8 +917,18 @@ def run(ck):
         S = F.gen_schema(rng, max_types=3, depth=2)
         counter = [0]
         ops = [("op%d" % k, gen_parts(rng, S, rng.choice([0, 1, 1, 2, 2, 3, 3]), counter)) for k in range(2)]
-        wsdl = render_wsdl(S, ops)
+        # every third interface exposes the port type through a second port whose binding declares
+        # fewer header parts (a prefix of the list, so positional values still line up) for the
+        # same-named operations; calls then alternate between the two ports on ONE client
+        ops2 = None
+        if si % 3 == 1 and any(parts for _, parts in ops):
+            ops2 = dict((name, parts[:rng.randrange(len(parts))] if parts else []) for name, parts in ops)
+        wsdl = render_wsdl(S, ops, ops2=ops2)
         opsd = dict(ops)
+        if ops2 is not None:
+            for name, parts2 in ops2.items():
+                opsd["port2/" + name] = parts2
+            ck.count("interfaces-with-two-ports")
         try:
             client = U.client_from_wsdl(wsdl, nosend=True)
         except Exception as e:  # noqa
@@ -914,6 +947,18 @@ def run(ck):
                 calls = [opname] * n
                 if n > 1 and rng.random() < 0.3:
                     calls[rng.randrange(1, n)] = other       # the same objects used for another operation
+                if ops2 is not None:
+                    # the same operation through the other port, before and/or after
+                    k = rng.randrange(3)
+                    if k == 0:
+                        calls = ["port2/" + opname] + calls
+                    elif k == 1:
+                        calls = calls + ["port2/" + opname]
+                    else:
+                        calls = ["port2/" + opname] + calls + ["port2/" + opname]
+                    if rng.random() < 0.5:
+                        calls = [("port2/" + c_) if "/" not in c_ and c_ == opname else c_.split("/")[-1]
+                                 if c_ == "port2/" + opname else c_ for c_ in calls]
                 R.run_config(si, client, wsdl, S, opsd, H, W, calls, rng.random() < 0.8)
 
     cases = R.cases
@@ -1034,7 +1079,7 @@ def replay(ck, payload):
     print("soapheaders   :", repr(sh)[:500])
     for cname in payload["calls"]:
         try:
-            raw = getattr(client.service, cname)().envelope.decode("utf-8")
+            raw = invoke(client, cname).envelope.decode("utf-8")
             a, b = raw.find("Header"), raw.find("Body")
             print("%s now sends : %s" % (cname, raw[max(a - 10, 0):b]))
         except Exception as e:  # noqa
